@@ -151,7 +151,7 @@ theorem filterLoop1_nodup (n : Nat) :
 
 /-! ## the second loop -/
 
-theorem sortByLenStable_perm (l : List Path) : (sortByLenStable l).Perm l := List.mergeSort_perm _ _
+theorem sortByLenStable_perm (l : List Path) : (sortByLenStable l).Perm l := isort_perm _ _
 
 theorem filterLoop2_length (n : Nat) :
     ∀ (hold cond sssr out : List Ring), filterLoop2 n hold cond sssr = .ok out → out.length = n := by
